@@ -1,6 +1,7 @@
 package filesystem
 
 import (
+	"bufio"
 	"context"
 	"crypto"
 	"errors"
@@ -20,6 +21,7 @@ import (
 	"github.com/go-git/go-git/v6/plumbing/format/idxfile"
 	"github.com/go-git/go-git/v6/plumbing/format/objfile"
 	"github.com/go-git/go-git/v6/plumbing/format/packfile"
+	packutil "github.com/go-git/go-git/v6/plumbing/format/packfile/util"
 	"github.com/go-git/go-git/v6/plumbing/hash"
 	"github.com/go-git/go-git/v6/plumbing/storer"
 	"github.com/go-git/go-git/v6/storage/filesystem/dotgit"
@@ -842,7 +844,37 @@ func (s *ObjectStorage) decodeDeltaObjectAt(
 		return nil, err
 	}
 
-	return newDeltaObject(obj, hash, base, header.Size), nil
+	// header.Size is the length of the delta instructions; the size of
+	// the object itself is the second varint of the delta (target size).
+	size, err := deltaTargetSize(obj)
+	if err != nil {
+		return nil, err
+	}
+
+	return newDeltaObject(obj, hash, base, size), nil
+}
+
+// deltaTargetSize reads the target size from the header of a delta
+// (source size and target size, both LEB128).
+func deltaTargetSize(delta plumbing.EncodedObject) (int64, error) {
+	r, err := delta.Reader()
+	if err != nil {
+		return 0, err
+	}
+	defer func() { _ = r.Close() }()
+
+	br := bufio.NewReader(r)
+	if _, err := packutil.DecodeLEB128FromReader(br); err != nil {
+		return 0, fmt.Errorf("%w: delta source size: %w", packfile.ErrMalformedPackfile, err)
+	}
+	size, err := packutil.DecodeLEB128FromReader(br)
+	if err != nil {
+		return 0, fmt.Errorf("%w: delta target size: %w", packfile.ErrMalformedPackfile, err)
+	}
+	if int64(size) < 0 {
+		return 0, fmt.Errorf("%w: delta target size out of range", packfile.ErrMalformedPackfile)
+	}
+	return int64(size), nil
 }
 
 // findObjectInPackfile locates h across the storage's packs and
